@@ -367,6 +367,27 @@ func runC10(c *Ctx) {
 							c.violation("C10: an import list validated without a containing account accepts a token addressed to another account", inp)
 						}
 					}
+					// in a list, behind another import that carries the very same token and is bound to it perfectly: every
+					// import is checked against its own token, whatever was checked before
+					if act, err := jwt.DecodeActivationClaims(tok); err == nil && act != nil && !allOK && ok[2] {
+						from := act.Issuer
+						if act.IssuerAccount != "" {
+							from = act.IssuerAccount
+						}
+						sib := &jwt.Import{Name: "sibling", Type: act.ImportType, Account: from, Subject: act.ImportSubject, Token: tok}
+						vs := jwt.CreateValidationResults()
+						sib.Validate(importer.pub, vs)
+						if !vs.IsBlocking(false) {
+							vl := jwt.CreateValidationResults()
+							ims := jwt.Imports{sib, im}
+							ims.Validate(importer.pub, vl)
+							c.sum.ImplChecks++
+							if !vl.IsBlocking(false) {
+								c.violation("C10: an import whose token violates the binding passes when another import with the same token precedes it in the list", inp)
+							}
+							c.count("behind_a_sibling_with_the_same_token")
+						}
+					}
 					// the same import inside a clean account, at a random position
 					ac, _ := g.account()
 					ac.Subject = importer.pub
